@@ -199,7 +199,10 @@ def run_case(case, acc: Acc | None = None):
                     loop.io_at(now + 0.1, deliver, kind, arg)
                     return
                 T = ts[0]
-                if dl == "T-":
+                if dl == "L":
+                    # late, but well in time: three quarters of the way to the pending timeout (a slow NCP)
+                    loop.io_at(now + 0.75 * (T - now), deliver, kind, arg)
+                elif dl == "T-":
                     loop.io_at(T, deliver, kind, arg)
                 else:
                     loop.io_after(T, deliver, kind, arg)
@@ -698,6 +701,15 @@ def gen_cases(tier, seed):
     for k in (12, 20, 30):
         for fin in ([("sil",), ("ack", "0")], [("sil",), ("sil",), ("ack", "T-")], [("nak", "0"), ("sil",), ("ack", "0")]):
             cases.append({"sends": [[("ack", "0")]] * k + [fin], "concurrent": 1, "followup": False})
+    # ... and silences / acknowledgements at the last moment drive it to its ceiling; the next send then meets nothing but
+    # silence (or stale acknowledgements, or NAKs at the last moment): the whole budget at the longest timeout
+    for pre in ([[("sil",), ("ack", "L")]], [[("sil",), ("sil",), ("ack", "L")]], [[("sil",), ("ack", "L")]] * 2,
+                [[("ack", "L")]] * 6, [[("sil",), ("ack", "L")], [("ack", "L")]]):
+        for fin in ([("sil",)] * maxa, [("sil",)] * (maxa - 1) + [("ack", "T-")], [("stale", "T-")] * maxa,
+                    ([("sil",), ("nak", "T-")] * maxa)[:maxa], [("sil",)] * (maxa - 1) + [("err", "T-", 0x51)]):
+            for fu in (True, "rst"):
+                cases.append({"sends": [list(x) for x in pre] + [list(fin)], "concurrent": 1, "followup": fu})
+                cases.append({"sends": [list(x) for x in pre] + [list(fin), [("ack", "0")]], "concurrent": 1, "followup": fu})
     for _ in range(nmulti):
         n = rnd.choice([2, 2, 3, 3, 4])
         sends = []
